@@ -426,6 +426,7 @@ var classes10 = []string{"random", "lifecycle", "sign-discard-update", "force-ov
 // RunC10 is the driver of property C10.
 func RunC10(seed int64, tier, out string) {
 	hx.Seed(seed)
+	pinWireAddress()
 	g := &cv.Gen{R: rand.New(rand.NewSource(hx.Rng.Int63()))}
 	res := hx.NewResult("C10", seed, tier)
 	histories, maxLen, perFile, crashP := 240, 32, 15, 200
